@@ -190,6 +190,18 @@ class World:
         self.objs[op['as']] = copy.deepcopy(self.objs[op['obj']])
         return {'status': 'ok'}
 
+    def op_derive_operator(self, op):
+        """derive a new operator template from one of the circuit's operators (what loading a YAML template with
+        `base:` does); the derived object is dropped, the base must stay as it was"""
+        c = self.objs[op['obj']]
+        nt = c.get_node_template(op['node'])
+        base = list(nt.operators)[0]
+        kw = {'name': 'derived_op', 'equations': copy.deepcopy(op['edits'])}
+        if op.get('variables'):
+            kw['variables'] = dict(op['variables'])
+        d = base.update_template(**kw)
+        return {'status': 'ok', 'n_eqs': len(d.equations)}
+
     def op_update_template(self, op):
         c = self.objs[op['obj']]
         kw = {}
